@@ -347,6 +347,32 @@ fn apply(buf: &mut Vec<u8>, p: &Pend) {
 
 const SECTOR: usize = 512;
 
+fn stray_entries(dir: &Path, shadow: &BTreeMap<String, Shadow>) -> Vec<(String, Vec<u8>)> {
+    let mut out = Vec::new();
+    let rd = match std::fs::read_dir(dir) {
+        Ok(r) => r,
+        Err(_) => return out,
+    };
+    let mut names: Vec<(String, bool)> = rd
+        .filter_map(|e| e.ok())
+        .map(|e| (e.file_name().to_string_lossy().to_string(), e.file_type().map(|t| t.is_dir()).unwrap_or(false)))
+        .collect();
+    names.sort();
+    for (n, is_dir) in names {
+        if shadow.contains_key(&n) || n.ends_with("-shm") {
+            continue;
+        }
+        if is_dir {
+            out.push((format!("{n}/"), Vec::new()));
+        } else if let Ok(b) = std::fs::read(dir.join(&n)) {
+            if b.len() <= 1 << 20 {
+                out.push((n, b));
+            }
+        }
+    }
+    out
+}
+
 fn capture(s: &mut VfsState, at_call: &str) {
     let dir = match &s.track_dir {
         Some(d) => d.clone(),
@@ -367,6 +393,11 @@ fn capture(s: &mut VfsState, at_call: &str) {
             }
         }
     }
+    // whatever else the code under test keeps in the data directory outside SQLite's file I/O
+    // (lock directories of the dot-file locking VFS, side files written with std::fs): it survives
+    // a kill, and may survive a power loss. Directories are recorded as "name/".
+    let strays = stray_entries(&dir, &s.shadow);
+    files.extend(strays.iter().cloned());
     let stamp = sched::seq_now();
     s.images.push(Image {
         point,
@@ -448,6 +479,16 @@ fn capture(s: &mut VfsState, at_call: &str) {
             }
             files.push((name.clone(), b));
         }
+        // entries made outside SQLite's file I/O were never synced by anyone we can see: each may
+        // or may not have reached the disk
+        if strat != 0 {
+            for st in &strays {
+                if rng.chance(1, 2) {
+                    detail.push_str(&format!("{}:stray_survived ", st.0));
+                    files.push(st.clone());
+                }
+            }
+        }
         s.images.push(Image {
             point,
             stamp,
@@ -508,8 +549,14 @@ unsafe impl Send for Real {}
 unsafe impl Sync for Real {}
 static REAL: std::sync::OnceLock<Real> = std::sync::OnceLock::new();
 
-fn real() -> *mut ffi::sqlite3_vfs {
-    REAL.get().expect("vfs installed").0
+/// The real VFS a shim instance sits on (one shim per built-in unix VFS, see `install`).
+unsafe fn real_of(v: *mut ffi::sqlite3_vfs) -> *mut ffi::sqlite3_vfs {
+    let r = (*v).pAppData as *mut ffi::sqlite3_vfs;
+    if r.is_null() {
+        REAL.get().expect("vfs installed").0
+    } else {
+        r
+    }
 }
 
 unsafe fn rf(f: *mut ffi::sqlite3_file) -> *mut ffi::sqlite3_file {
@@ -732,6 +779,30 @@ static METHODS: ffi::sqlite3_io_methods = ffi::sqlite3_io_methods {
     xUnfetch: None,
 };
 
+/// For real files without shared-memory support (the dot-file locking VFS): SQLite must see that,
+/// or it would try WAL mode through methods that are not there.
+static METHODS_V1: ffi::sqlite3_io_methods = ffi::sqlite3_io_methods {
+    iVersion: 1,
+    xClose: Some(x_close),
+    xRead: Some(x_read),
+    xWrite: Some(x_write),
+    xTruncate: Some(x_truncate),
+    xSync: Some(x_sync),
+    xFileSize: Some(x_file_size),
+    xLock: Some(x_lock),
+    xUnlock: Some(x_unlock),
+    xCheckReservedLock: Some(x_check_reserved),
+    xFileControl: Some(x_file_control),
+    xSectorSize: Some(x_sector_size),
+    xDeviceCharacteristics: Some(x_device_chars),
+    xShmMap: None,
+    xShmLock: None,
+    xShmBarrier: None,
+    xShmUnmap: None,
+    xFetch: None,
+    xUnfetch: None,
+};
+
 unsafe fn cpath(z: *const c_char) -> Option<PathBuf> {
     if z.is_null() {
         None
@@ -740,7 +811,7 @@ unsafe fn cpath(z: *const c_char) -> Option<PathBuf> {
     }
 }
 
-unsafe extern "C" fn v_open(_v: *mut ffi::sqlite3_vfs, name: *const c_char, f: *mut ffi::sqlite3_file, flags: c_int, out: *mut c_int) -> c_int {
+unsafe extern "C" fn v_open(v: *mut ffi::sqlite3_vfs, name: *const c_char, f: *mut ffi::sqlite3_file, flags: c_int, out: *mut c_int) -> c_int {
     let sf = f as *mut ShimFile;
     (*sf).base.pMethods = std::ptr::null();
     let p = cpath(name);
@@ -749,7 +820,7 @@ unsafe extern "C" fn v_open(_v: *mut ffi::sqlite3_vfs, name: *const c_char, f: *
     }
     let realp = (f as *mut u8).add(std::mem::size_of::<ShimFile>()) as *mut ffi::sqlite3_file;
     (*sf).real = realp;
-    let rv = real();
+    let rv = real_of(v);
     let rc = ((*rv).xOpen.unwrap())(rv, name, realp, flags, out);
     if rc == ffi::SQLITE_OK {
         let id = with(|s| {
@@ -776,18 +847,19 @@ unsafe extern "C" fn v_open(_v: *mut ffi::sqlite3_vfs, name: *const c_char, f: *
         });
         (*sf).id = id;
         if !(*realp).pMethods.is_null() {
-            (*sf).base.pMethods = &raw const METHODS;
+            let rm = (*realp).pMethods;
+            (*sf).base.pMethods = if (*rm).iVersion >= 2 && (*rm).xShmMap.is_some() { &raw const METHODS } else { &raw const METHODS_V1 };
         }
     }
     rc
 }
 
-unsafe extern "C" fn v_delete(_v: *mut ffi::sqlite3_vfs, name: *const c_char, sync_dir: c_int) -> c_int {
+unsafe extern "C" fn v_delete(v: *mut ffi::sqlite3_vfs, name: *const c_char, sync_dir: c_int) -> c_int {
     let p = cpath(name);
     if let Some(code) = pre_call(CallKind::Delete, "xDelete", &short(&p)) {
         return code;
     }
-    let rv = real();
+    let rv = real_of(v);
     let rc = ((*rv).xDelete.unwrap())(rv, name, sync_dir);
     if rc == ffi::SQLITE_OK {
         with(|s| {
@@ -811,16 +883,16 @@ unsafe extern "C" fn v_delete(_v: *mut ffi::sqlite3_vfs, name: *const c_char, sy
     rc
 }
 
-unsafe extern "C" fn v_access(_v: *mut ffi::sqlite3_vfs, name: *const c_char, flags: c_int, out: *mut c_int) -> c_int {
+unsafe extern "C" fn v_access(v: *mut ffi::sqlite3_vfs, name: *const c_char, flags: c_int, out: *mut c_int) -> c_int {
     if let Some(code) = pre_call(CallKind::Access, "xAccess", "") {
         return code;
     }
-    let rv = real();
+    let rv = real_of(v);
     ((*rv).xAccess.unwrap())(rv, name, flags, out)
 }
 
-unsafe extern "C" fn v_full_pathname(_v: *mut ffi::sqlite3_vfs, name: *const c_char, n: c_int, out: *mut c_char) -> c_int {
-    let rv = real();
+unsafe extern "C" fn v_full_pathname(v: *mut ffi::sqlite3_vfs, name: *const c_char, n: c_int, out: *mut c_char) -> c_int {
+    let rv = real_of(v);
     ((*rv).xFullPathname.unwrap())(rv, name, n, out)
 }
 
@@ -899,15 +971,46 @@ unsafe extern "C" fn v_current_time64(_v: *mut ffi::sqlite3_vfs, out: *mut i64) 
     0
 }
 
-unsafe extern "C" fn v_get_last_error(_v: *mut ffi::sqlite3_vfs, n: c_int, out: *mut c_char) -> c_int {
-    let rv = real();
+unsafe extern "C" fn v_get_last_error(v: *mut ffi::sqlite3_vfs, n: c_int, out: *mut c_char) -> c_int {
+    let rv = real_of(v);
     match (*rv).xGetLastError {
         Some(f) => f(rv, n, out),
         None => 0,
     }
 }
 
-/// Register the shim as the default VFS (once per process).
+unsafe fn make_shim(rv: *mut ffi::sqlite3_vfs, name: *const c_char) -> *mut ffi::sqlite3_vfs {
+    let shim = Box::new(ffi::sqlite3_vfs {
+        iVersion: 2,
+        szOsFile: (std::mem::size_of::<ShimFile>() as c_int) + (*rv).szOsFile,
+        mxPathname: (*rv).mxPathname,
+        pNext: std::ptr::null_mut(),
+        zName: name,
+        pAppData: rv as *mut c_void,
+        xOpen: Some(v_open),
+        xDelete: Some(v_delete),
+        xAccess: Some(v_access),
+        xFullPathname: Some(v_full_pathname),
+        xDlOpen: (*rv).xDlOpen,
+        xDlError: (*rv).xDlError,
+        xDlSym: (*rv).xDlSym,
+        xDlClose: (*rv).xDlClose,
+        xRandomness: Some(v_randomness),
+        xSleep: Some(v_sleep),
+        xCurrentTime: Some(v_current_time),
+        xGetLastError: Some(v_get_last_error),
+        xCurrentTimeInt64: Some(v_current_time64),
+        xSetSystemCall: None,
+        xGetSystemCall: None,
+        xNextSystemCall: None,
+    });
+    Box::leak(shim)
+}
+
+/// Register the shim as the default VFS (once per process). Every built-in unix VFS
+/// (`unix`, `unix-dotfile`, `unix-excl`, `unix-none`) is also replaced, under its own name, by a
+/// shim instance over the original, so that code under test that names a VFS explicitly still does
+/// its I/O, locking and sleeping through the simulator.
 pub fn install() {
     static ONCE: std::sync::Once = std::sync::Once::new();
     ONCE.call_once(|| unsafe {
@@ -915,33 +1018,26 @@ pub fn install() {
         let rv = ffi::sqlite3_vfs_find(c"unix".as_ptr());
         assert!(!rv.is_null(), "unix vfs");
         let _ = REAL.set(Real(rv));
-        let shim = Box::new(ffi::sqlite3_vfs {
-            iVersion: 2,
-            szOsFile: (std::mem::size_of::<ShimFile>() as c_int) + (*rv).szOsFile,
-            mxPathname: (*rv).mxPathname,
-            pNext: std::ptr::null_mut(),
-            zName: c"tcss-sim".as_ptr(),
-            pAppData: rv as *mut c_void,
-            xOpen: Some(v_open),
-            xDelete: Some(v_delete),
-            xAccess: Some(v_access),
-            xFullPathname: Some(v_full_pathname),
-            xDlOpen: (*rv).xDlOpen,
-            xDlError: (*rv).xDlError,
-            xDlSym: (*rv).xDlSym,
-            xDlClose: (*rv).xDlClose,
-            xRandomness: Some(v_randomness),
-            xSleep: Some(v_sleep),
-            xCurrentTime: Some(v_current_time),
-            xGetLastError: Some(v_get_last_error),
-            xCurrentTimeInt64: Some(v_current_time64),
-            xSetSystemCall: None,
-            xGetSystemCall: None,
-            xNextSystemCall: None,
-        });
-        let p = Box::leak(shim);
+        let p = make_shim(rv, c"tcss-sim".as_ptr());
         let rc = ffi::sqlite3_vfs_register(p, 1);
         assert_eq!(rc, ffi::SQLITE_OK);
+        for name in [c"unix", c"unix-dotfile", c"unix-excl", c"unix-none"] {
+            let orig = ffi::sqlite3_vfs_find(name.as_ptr());
+            if orig.is_null() || orig == p {
+                continue;
+            }
+            if ffi::sqlite3_vfs_unregister(orig) != ffi::SQLITE_OK {
+                continue;
+            }
+            let sh = make_shim(orig, name.as_ptr());
+            if ffi::sqlite3_vfs_register(sh, 0) != ffi::SQLITE_OK {
+                // put the original back rather than lose the name
+                ffi::sqlite3_vfs_register(orig, 0);
+            }
+        }
+        // the default must still be ours
+        let d = ffi::sqlite3_vfs_find(std::ptr::null());
+        assert!(d == p, "shim is the default vfs");
         with(|s| s.installed = true);
     });
 }
@@ -950,6 +1046,10 @@ pub fn install() {
 pub fn materialise(img: &Image, dir: &Path) -> std::io::Result<()> {
     std::fs::create_dir_all(dir)?;
     for (name, bytes) in &img.files {
+        if let Some(d) = name.strip_suffix('/') {
+            std::fs::create_dir_all(dir.join(d))?;
+            continue;
+        }
         std::fs::write(dir.join(name), bytes)?;
     }
     Ok(())
